@@ -407,7 +407,10 @@ impl<'tcx> Cx<'tcx> {
         }
         // inherent impl self type
         if let Some(imp) = tcx.impl_of_assoc(did) {
-            let st = tcx.type_of(imp).instantiate_identity().skip_norm_wip();
+            // the impl's own parameters are a prefix of the callee's generic args: substitute them, so that the type
+            // is expressed over the *caller's* parameters (an identity-instantiated `[T; N]` of a foreign impl names
+            // parameters the caller's environment does not know)
+            let st = tcx.type_of(imp).instantiate(tcx, args).skip_norm_wip();
             let _ = write!(o, ",\"impl_self\":{}", self.ty_json(st, env));
             if let Some(tr) = tcx.impl_opt_trait_ref(imp) {
                 let tr = tr.instantiate_identity().skip_norm_wip();
